@@ -460,3 +460,30 @@ def replay_edges(report, edges, Cap, scaled, rng, variants=2):
     report.cov["edges_replayed"] = report.cov.get("edges_replayed", 0) + n_done
     report.cov["traces_validated_against_impl"] += n_done
     return True
+
+
+def rerun(trace):
+    """Re-execute a recorded trace's operations against the current tree (for --replay)."""
+    rec = LinRecorder(trace["W"], trace["D"], trace["NS"], None)
+    for e in trace["events"]:
+        s = e.get("s", 1) - 1
+        ev = e["ev"]
+        if ev == "add":
+            rec.add(s, bytes(e["k"]), impl.unbig(e["v"]))
+        elif ev == "update_list":
+            rec.update_list(s, [bytes(k) for k in e["ks"]])
+        elif ev == "update_dict":
+            rec.update_dict(s, [(bytes(k), impl.unbig(v)) for k, v in e["kvs"]])
+        elif ev == "add_ngram":
+            rec.add_ngram(s, bytes(e["key"]), e["n"])
+        elif ev == "update_ngram":
+            rec.update_ngram(s, [bytes(k) for k in e["keys"]], e["n"])
+        elif ev == "merge":
+            rec.merge(s, e["t"] - 1)
+        elif ev == "saveload":
+            rec.saveload(s, e["t"] - 1)
+        elif ev == "add_records":
+            rec.add_records(s, impl.unbig(e["n"]))
+        elif ev == "query":
+            rec.query(s, bytes(e["k"]))
+    return rec.trace()
